@@ -298,6 +298,22 @@ def run(ctx: Ctx):
                        continuous=False, rev=bool(k % 4 == 3), speed=0.25) for k in range(ne)]
     scen.e2e_stream(ctx, "whole-run-split-pvars", ecases, "Ladim.C06.pvars_complete / Ladim.C05.values_follow_* (particle variables at index pid in every file)")
 
+    # ---- a release file that is not ordered in time: the rows of two release times listed alternately, many of each.
+    # Identifiers follow the release order: time first, then the position in the file.
+    icases = []
+    for k in range(8 if ctx.thorough else 3):
+        sc = scen.gen(ctx.seed * 100000 + 5900 + k, layout="sparse", pvars=True, numrec=0, period=1, nsteps=5, kills=False, continuous=False,
+                      rev=False, speed=0.25, land=False, subgrid="none")
+        r0 = sc["rows"][0]
+        later = [2, 3, 1][k % 3]
+        rows = []
+        for n in range(24 + 5 * k):
+            rows.append(dict(r0, step=0, mult=1, X=2.0 + 0.125 * (n % 40), Y=3.0 + 0.25 * (n % 7)))
+            rows.append(dict(r0, step=later, mult=1 + (n % 2), X=6.0 - 0.0625 * (n % 32), Y=4.0 + 0.125 * (n % 11)))
+        sc["rows"] = rows
+        icases.append(sc)
+    scen.e2e_stream(ctx, "whole-run-unordered-release-file", icases, "Ladim.C05.values_follow_append / Ladim.C14.run_refines_spec (numbered in release order: time first, then the position in the file)")
+
     # ---- a name declared both as an instance variable and as a particle variable: the state refuses the declaration;
     # if it ever accepts one, the invariants must hold for it like for any other
     from ladim.state import State
